@@ -48,6 +48,12 @@ impl UDPListener {
     port: u16,
     reuse_addr: bool,
   ) -> io::Result<mio_06::net::UdpSocket> {
+    #[cfg(rustdds_verif)]
+    {
+      if let Some(sim_socket) = crate::verif::hooks::sim_listening_socket(port, reuse_addr) {
+        return sim_socket; // simulated network: logical port, no file descriptor
+      }
+    }
     let raw_socket = Socket::new(Domain::IPV4, Type::DGRAM, Some(Protocol::UDP))?;
 
     // We set ReuseAddr so that other DomainParticipants on this host can
